@@ -268,8 +268,11 @@ func placeholderState(l *sqlLexer) stateFn {
 		l.pos += width
 
 		if '0' <= r && r <= '9' {
-			num *= 10
-			num += int(r - '0')
+			// no call has that many arguments: stop growing before the int wraps around
+			if num < 1<<30 {
+				num *= 10
+				num += int(r - '0')
+			}
 		} else {
 			l.parts = append(l.parts, num)
 			l.pos -= width
